@@ -428,6 +428,116 @@ def pool_check(ctx, res):
             })
 
 
+# ------------------------------------------------------------------------------------------------
+# no mutable object is shared between two sessions unless it is meant to be (server-wide / per-user state)
+# ------------------------------------------------------------------------------------------------
+async def _identity_case(loop, server_kwargs):
+    import collections
+
+    users = [W.UserSpec("alice", "secret", home="/"), W.UserSpec("bob", None, home="/")]
+    wd = W.World(loop, users, server_kwargs=server_kwargs)
+    await wd.start()
+    out = []
+    try:
+        wd.set_tree(TREE)
+        raws = []
+        for login in (["USER bob"], ["USER bob"], ["USER alice", "PASS secret"], []):
+            r = await wd.raw_client()
+            for line in login:
+                await W.run_line(wd, r, line.encode())
+            if login:
+                await W.run_line(wd, r, b"EPSV")
+            raws.append(r)
+        srv = wd.server
+        allowed = {id(srv.throttle), id(srv.throttle.read), id(srv.throttle.write), id(srv), id(srv.path_io_factory), id(None)}
+        for u in wd.users:
+            allowed.add(id(u))
+            allowed.update(id(x) for x in vars(u).values())
+        for t in getattr(srv, "throttle_per_user", {}).values():
+            allowed.update((id(t), id(t.read), id(t.write)))
+        state = getattr(srv.path_io_factory, "state", None)
+        if state is not None:
+            allowed.add(id(state))
+
+        def own(v):
+            return type(v).__module__.startswith("aioftp")
+
+        def mutable(v):
+            # the library's own objects and plain containers; sockets, streams, the loop and the like are the network's
+            return isinstance(v, (set, dict, list, collections.deque, bytearray)) or (own(v) and not isinstance(v, tuple))
+
+        def parts(name, v, depth=0):
+            """(label, object) for the value and what it directly holds (only the library's own objects are opened)"""
+            yield name, v
+            if depth >= 3:
+                return
+            if isinstance(v, dict):
+                for k, x in v.items():
+                    yield from parts("%s[%r]" % (name, k), x, depth + 1)
+            elif isinstance(v, tuple):
+                for k, x in enumerate(v):
+                    yield from parts("%s[%d]" % (name, k), x, depth + 1)
+            elif own(v):
+                fields = dict(vars(v)) if hasattr(v, "__dict__") else {}
+                for k in getattr(type(v), "__slots__", ()):
+                    if hasattr(v, k):
+                        fields[k] = getattr(v, k)
+                for k, x in fields.items():
+                    if not k.startswith("__"):
+                        yield from parts("%s.%s" % (name, k), x, depth + 1)
+
+        per = []
+        for stream, conn in srv.connections.items():
+            seen = {}
+            for key in list(dict.keys(conn)):
+                ok, v = wd._get(conn, key)
+                if ok:
+                    for label, x in parts(key, v):
+                        if mutable(x):
+                            seen.setdefault(id(x), label)
+            for label, x in parts("command_connection.throttles", stream.throttles):
+                if mutable(x):
+                    seen.setdefault(id(x), label)
+            per.append(seen)
+        for i in range(len(per)):
+            for j in range(i + 1, len(per)):
+                for oid in set(per[i]) & set(per[j]):
+                    if oid not in allowed:
+                        out.append("sessions %d and %d share one mutable object: %s / %s" % (i, j, per[i][oid], per[j][oid]))
+        for r in raws:
+            r.close()
+        await loop.settle()
+    finally:
+        try:
+            await wd.stop()
+        except Exception:
+            wd.finish()
+    return sorted(set(out))
+
+
+def _identity_job(kw):
+    try:
+        return simnet.run(_identity_case, kw)
+    except BaseException as e:  # noqa
+        return "HARNESS-ERROR %s: %s" % (type(e).__name__, e)
+
+
+IDENTITY_CONFIGS = [{}, {"maximum_connections": 5}, {"read_speed_limit": 1000}, {"read_speed_limit_per_connection": 1000, "write_speed_limit_per_connection": 1000}, {"data_ports": [41001, 41002, 41003, 41004]}, {"idle_timeout": 30, "socket_timeout": 5}]
+
+
+def identity_check(ctx, res):
+    for kw in IDENTITY_CONFIGS:
+        res.cases += 1
+        res.count("kind=shared-mutable-objects")
+        o = _identity_job(kw)
+        if isinstance(o, str):
+            res.disagreements.append({"correspondence": "identity harness", "input": kw, "impl": o})
+            continue
+        res.distinct.add(("identity", repr(sorted(kw.items()))))
+        if o:
+            res.oracle_failures.append({"input": {"kind": "identity", "server_options": kw}, "what": o[0] + (" (and %d more)" % (len(o) - 1) if len(o) > 1 else ""), "signature": "C17:sessions-share-a-mutable-object"})
+
+
 def run_one(spec, skews, latency=0.0, disturb=None):
     loop = SC.ILoop()
     asyncio.set_event_loop(loop)
@@ -540,6 +650,7 @@ def _check(ctx):
     lockstep_check(ctx, res)
     teardown_check(ctx, res)
     pool_check(ctx, res)
+    identity_check(ctx, res)
     res.samples = [{"sessions": SPECS[0], "start_skews": [0, 17], "backend_latency": 0.0}, {"sessions": SPECS[4], "start_skews": [0, 8, 11], "backend_latency": 0.003}]
     return res
 
@@ -571,6 +682,10 @@ def replay(ctx, doc):
         print("after the first session:", o)
         print("alone                  :", solo)
         return o != solo
+    if inp.get("kind") == "identity":
+        o = _identity_job(inp["server_options"])
+        print(o)
+        return bool(o)
     if inp.get("kind") == "pool":
         o = _pool_job((inp["first_session"], None if inp["ends_by"] == "QUIT" else inp["ends_by"], True))
         solo = _pool_job(([], None, False))
